@@ -152,12 +152,27 @@ def check_builder(idx: Index, rep: Report) -> None:
     defs = [d for d in idx.module(OPS).functions.values() if d.qualname == "irdl_build_arg_list"]
     f = idx.func(OPS, "irdl_build_arg_list")
     cfg = CFG(f.node)
-    loops = [w for w in walk_local(f.node) if isinstance(w, ast.For) and "zip(arg_defs, args)" in unparse(w.iter)]
+    prm = [a.arg for a in f.node.args.args]
+    if len(prm) < 3:
+        raise AnalysisError(f"{f.fq}: parameters (construct, args, arg_defs, ...) not found")
+    p_args, p_defs = prm[1], prm[2]
+    loops = [w for w in walk_local(f.node) if isinstance(w, ast.For) and f"zip({p_defs}, {p_args})" in unparse(w.iter)]
     if len(loops) != 1:
         raise AnalysisError(f"{f.fq}: loop over (definition, argument) pairs not found")
     w = loops[0]
     head = cfg.node_of(w)
-    apps = [c for c in calls_in(w) if unparse(c.func) == "arg_sizes.append"]
+    # the two lists the function returns: the flat list and the recorded sizes
+    rets = [n for n in walk_local(f.node) if isinstance(n, ast.Return) and isinstance(n.value, ast.Tuple) and len(n.value.elts) == 2 and all(isinstance(e, ast.Name) for e in n.value.elts)]
+    if len(rets) != 1:
+        raise AnalysisError(f"{f.fq}: `return <flat list>, <sizes>` not found")
+    res_n, sizes_n = rets[0].value.elts[0].id, rets[0].value.elts[1].id  # type: ignore[union-attr]
+    tg = w.target
+    if isinstance(w.iter, ast.Call) and unparse(w.iter.func) == "enumerate" and isinstance(tg, ast.Tuple) and len(tg.elts) == 2:
+        tg = tg.elts[1]
+    if not (isinstance(tg, ast.Tuple) and len(tg.elts) == 2 and isinstance(tg.elts[1], ast.Name)):
+        raise AnalysisError(f"{f.fq}: loop target `{unparse(w.target)}` not understood")
+    arg_n = tg.elts[1].id
+    apps = [c for c in calls_in(w) if unparse(c.func) == f"{sizes_n}.append"]
     an = {cfg.node_of(c) for c in apps}
     starts = [m for m, lab in cfg.succ[head] if lab == "T"]
     zero = any(m not in an and cfg.path_avoiding(m, head, lambda n: n.id in an, follow_exc=False) is not None for m in starts)
@@ -165,18 +180,18 @@ def check_builder(idx: Index, rep: Report) -> None:
     if zero or twice:
         r.fail(f.fq + ":once", Finding("C10.R2", f.fq, "size-count", f"an iteration of the builder loop records {'no' if zero else 'more than one'} size: the segment-size attribute no longer has one entry per definition", f.loc))
     else:
-        r.ok(f.fq + ":once", f"{f.loc} exactly one arg_sizes.append per definition on every path")
+        r.ok(f.fq + ":once", f"{f.loc} exactly one {sizes_n}.append per definition on every path")
     # each recorded size matches what was added to `res` in the same branch
     for c in apps:
         val = unparse(c.args[0])
         blk = _enclosing_block(w, c)
         txt = [unparse(s) for s in blk]
-        ok = (val == "0" and not any(t.startswith("res.") for t in txt)) or (val == "1" and "res.append(arg)" in txt) or (val == "len(arg)" and "res.extend(arg)" in txt)
+        ok = (val == "0" and not any(t.startswith(f"{res_n}.") for t in txt)) or (val == "1" and f"{res_n}.append({arg_n})" in txt) or (val == f"len({arg_n})" and f"{res_n}.extend({arg_n})" in txt)
         inst = f"{f.fq}:append({val})"
         if ok:
             r.ok(inst, f"{OPS}:{c.lineno} size {val} matches the elements added")
         else:
-            r.fail(inst, Finding("C10.R2", f.fq, f"size-mismatch:{val}", f"`{unparse(c)}` does not match what this branch adds to the flat list ({[t for t in txt if t.startswith('res.')]})", f"{OPS}:{c.lineno}"))
+            r.fail(inst, Finding("C10.R2", f.fq, f"size-mismatch:{val}", f"`{unparse(c)}` does not match what this branch adds to the flat list ({[t for t in txt if t.startswith(res_n + '.')]})", f"{OPS}:{c.lineno}"))
 
 
 def _enclosing_block(root: ast.AST, node: ast.AST) -> list[ast.stmt]:
@@ -221,10 +236,11 @@ def check_tables(idx: Index, rep: Report) -> None:
             prod[k] = (unparse(s.targets[0].elts[1]), unparse(s.value.args[2]))
     for k, stem in KINDS.items():
         inst = f"irdl_op_init:build:{k}"
-        if prod.get(k) == (f"{stem}_sizes", f"op_def.{stem}s"):
-            r.ok(inst, f"{f.loc} {stem}_sizes from irdl_build_arg_list({k}, …, op_def.{stem}s)")
+        if k in prod and prod[k][1] == f"op_def.{stem}s" and prod[k][0].isidentifier() and [v_[0] for v_ in prod.values()].count(prod[k][0]) == 1:
+            r.ok(inst, f"{f.loc} {prod[k][0]} from irdl_build_arg_list({k}, …, op_def.{stem}s)")
         else:
-            r.fail(inst, Finding("C10.R3", f.fq, f"build:{k}", f"sizes of {k} are produced as {prod.get(k)}; expected ({stem}_sizes, op_def.{stem}s)", f.loc))
+            r.fail(inst, Finding("C10.R3", f.fq, f"build:{k}", f"sizes of {k} are produced as {prod.get(k)}; expected (<a local of their own>, op_def.{stem}s)", f.loc))
+    sizes_of = {KINDS[k]: v_[0] for k, v_ in prod.items() if k in KINDS}
     for c in [n for n in ast.walk(f.node) if isinstance(n, ast.match_case)]:
         if isinstance(c.pattern, ast.MatchClass):
             cname = unparse(c.pattern.cls)
@@ -233,8 +249,9 @@ def check_tables(idx: Index, rep: Report) -> None:
                 stem = m.group(1).lower()
                 body = " ".join(unparse(s) for s in c.body)
                 inst = f"irdl_op_init:{cname}"
-                if f"container[{cname}.attribute_name] = DenseArrayBase.from_list(i32, {stem}_sizes)" in body:
-                    r.ok(inst, f"{f.loc} {cname} <- {stem}_sizes")
+                sz = re.escape(sizes_of.get(stem, f"{stem}_sizes"))
+                if re.search(rf"\b\w+\[{cname}\.attribute_name\] = DenseArrayBase\.from_list\(i32, {sz}\)", body):
+                    r.ok(inst, f"{f.loc} {cname} <- sizes of {stem}s")
                 else:
                     r.fail(inst, Finding("C10.R3", f.fq, f"option:{cname}", f"under option {cname} the builder stores `{body[:90]}`; expected {stem}_sizes under {cname}.attribute_name", f.loc))
             m = re.fullmatch(r"SameVariadic(\w+)Size", cname)
@@ -242,7 +259,8 @@ def check_tables(idx: Index, rep: Report) -> None:
                 stem = m.group(1).lower()
                 body = [unparse(s) for s in c.body]
                 inst = f"irdl_op_init:{cname}"
-                if f"sizes = {stem}_sizes" in body and f"construct = VarIRConstruct.{stem.upper()}" in body:
+                sz = re.escape(sizes_of.get(stem, f"{stem}_sizes"))
+                if any(re.fullmatch(rf"\w+ = {sz}", b_) for b_ in body) and any(re.fullmatch(rf"\w+ = VarIRConstruct\.{stem.upper()}", b_) for b_ in body):
                     r.ok(inst, f"{f.loc} {cname} checks {stem}_sizes")
                 else:
                     r.fail(inst, Finding("C10.R3", f.fq, f"option:{cname}", f"under option {cname} the builder checks {body}; expected {stem}_sizes / VarIRConstruct.{stem.upper()}", f.loc))
@@ -319,11 +337,14 @@ def check_properties(idx: Index, rep: Report) -> None:
                 bad_.append("a path does not test membership in self.properties")
         und = "; ".join(bad_) if bad_ else (None if "undeclared" in cases else "no rejecting path for undeclared properties")
     checks["undeclared-properties"] = und
-    checks["constructs"] = None if all(x in t for x in ("irdl_op_verify_arg_list(op, self, VarIRConstruct.OPERAND, constraint_context)", "irdl_op_verify_arg_list(op, self, VarIRConstruct.RESULT, constraint_context)", "irdl_op_verify_regions(op, self, constraint_context)", "verify_variadic_size(op, self, VarIRConstruct.SUCCESSOR)")) else "a construct kind is not size-verified"
+    ctx_names = {s_.targets[0].id for s_ in walk_local(f.node) if isinstance(s_, ast.Assign) and len(s_.targets) == 1 and isinstance(s_.targets[0], ast.Name) and isinstance(s_.value, ast.Call) and unparse(s_.value.func) == "ConstraintContext"}
+    cx = next(iter(ctx_names)) if len(ctx_names) == 1 else "constraint_context"
+    checks["constructs"] = None if all(x in t for x in (f"irdl_op_verify_arg_list(op, self, VarIRConstruct.OPERAND, {cx})", f"irdl_op_verify_arg_list(op, self, VarIRConstruct.RESULT, {cx})", f"irdl_op_verify_regions(op, self, {cx})", "verify_variadic_size(op, self, VarIRConstruct.SUCCESSOR)")) else "a construct kind is not size-verified"
     for k, why in checks.items():
         (r.ok(f.fq + ":" + k, f"{f.loc} {k}") if why is None else r.fail(f.fq + ":" + k, Finding("C10.R4", f.fq, k, f"OpDef.verify does not perform the `{k}` check: {why}", f.loc)))
     g = idx.func(OPS, "irdl_op_verify_arg_list")
-    if "verify_variadic_size(op, op_def, construct)" in unparse(g.node) and "arg_def.constr.verify(arg_types, constraint_context)" in unparse(g.node):
+    gp = [a.arg for a in g.node.args.args]
+    if len(gp) >= 4 and f"verify_variadic_size({gp[0]}, {gp[1]}, {gp[2]})" in unparse(g.node) and re.search(rf"\b\w+\.constr\.verify\(\w+, {re.escape(gp[3])}\)", unparse(g.node)):
         r.ok(g.fq, f"{g.loc} sizes verified before each segment's constraint, sharing one constraint context")
     else:
         r.fail(g.fq, Finding("C10.R4", g.fq, "arg-list", "operand/result lists are not size-verified and constraint-checked with the shared context", g.loc))
